@@ -22,6 +22,7 @@ type HistOpts struct {
 	Canon   bool
 	NewUrl  bool
 	Reparse bool // re-parse Href(false) of the touched handle after every op (C03)
+	Check   map[string]bool
 	MinOps  int
 	MaxOps  int
 }
@@ -50,7 +51,7 @@ func (h *Hist) reparse(k int) {
 
 // randomHistory builds and executes one history
 func randomHistory(r *Rand, o HistOpts) *Hist {
-	h := &Hist{}
+	h := &Hist{Check: o.Check}
 	c := o.Cfg(r)
 	k := startHist(r, c, h)
 	if k < 0 && r.P(70) {
